@@ -17,7 +17,12 @@
    * dump_phasepoint: [dumpf label tag] is the config a dumped copy points to;
    * random numbers: [draws], consumed left to right;
    * energies: [vpot_of tag] is the potential energy stored with the frame of that tag
-     (None = no energy); exp: [expf];  engine0.beta / engine1.beta: rationals.
+     (None = no energy); exp: [expf];  engine0.beta / engine1.beta: rationals;
+   * the two length limits: e_maxlen e0 = picked[-1]["ens"]["tis_set"]["maxlength"] (maxlen0 in
+     the code) and e_maxlen e1 = picked[0]["ens"]["tis_set"]["maxlength"] (maxlen1) are
+     independent inputs.  retis_swap_zero as written: maxlen1 - 1 sizes BOTH run containers,
+     maxlen0 the new [0-] path and its BTX test (==), maxlen1 the new [0+] path and its FTX test
+     (>=).  quantis_swap_zero as written reads the [0-] limit for both paths (sic).
    -inf as the left interface of [0-] is represented by any integer below every order value
    of the case (see [neg_inf_for]); the comparisons the code makes with -inf then have the
    same outcome.
@@ -259,6 +264,93 @@ Definition retis_swap_zero (e0 e1 : ens) (old0 old1 : spath)
     end
     end
   end.
+
+(* ------------------------------------------------------------------ variants of retis_swap_zero *)
+(* NOT the code: the same two functions with the places a variant changes made parameters, so that
+   theorems/C11.v can refute variants (proofs/SwapP.v shows by reflexivity that the code's values of
+   the parameters give back retis_path1 / retis_swap_zero).
+   [retis_path1_seg seg]: step 2 with the container handed to engine1.propagate allocated with
+   [seg] frames; the code is seg = maxlen1 - 1 (one frame is kept free for old[0-][-2]). *)
+Definition retis_path1_seg (seg : nat) (e0 e1 : ens) (allowed : bool) (old0 : path) (streams : list (list frame))
+  : res (path * status * list (list frame) * list call) :=
+  let maxlen1 := e_maxlen e1 in
+  let tmp := empty_path seg 0 in
+  match last_frame old0 with
+  | None => Err ERaise
+  | Some f0l =>
+    let system := copy_frame 0 f0l in
+    match (if allowed
+           then match engine_call E1 tmp streams system false (e_i0 e1) (e_i2 e1) with
+                | Err e => Err e
+                | Ok (path_tmp, s, c) =>
+                    match last2_frame old0 with
+                    | None => Err ERaise
+                    | Some f0m2 =>
+                        let path1 := fst (append (empty_path maxlen1 0) (dump DSecondLast f0m2)) in
+                        Ok (iadd 0 path1 path_tmp, s, [c])
+                    end
+                end
+           else Ok (fst (append tmp system), streams, [])) with
+    | Err e => Err e
+    | Ok (path1, streams1, calls) =>
+      let st :=
+        if (maxlen1 <=? plen path1)%nat then FTX
+        else if (plen path1 <? 3)%nat then FTS
+        else ACC in
+      Ok (path1, st, streams1, calls)
+    end
+  end.
+
+(* retis_swap_zero with step 2 computed by [p1f] *)
+Definition retis_swap_zero_with
+           (p1f : ens -> ens -> bool -> path -> list (list frame) -> res (path * status * list (list frame) * list call))
+           (e0 e1 : ens) (old0 old1 : spath)
+           (streams : list (list frame)) (draws : list Q) : outcome :=
+  let p_old0 := sp_path old0 in
+  let p_old1 := sp_path old1 in
+  match end_point p_old0 (e_i0 e0) (e_i2 e0) with
+  | None => OErr ERaise
+  | Some ep =>
+    let allowed := is_R ep in
+    if lm1_early e0 p_old0 then Out false old0 old1 ZML [] 0
+    else
+    match retis_path0 e0 e1 allowed p_old1 streams with
+    | Err e => OErr e
+    | Ok (path0, st0, streams1, calls0) =>
+    match p1f e0 e1 allowed p_old0 streams1 with
+    | Err e => OErr e
+    | Ok (path1, st1, _, calls1) =>
+      let calls := calls0 ++ calls1 in
+      let accept := is_acc st0 && is_acc st1 in
+      let stat := if accept then ACC else if is_acc st0 then st1 else st0 in
+      match (if accept && (is_wf (e_move e0) || is_wf (e_move e1))
+             then match draws with
+                  | [] => Err ERaise
+                  | u :: _ =>
+                      match high_acc_swap path1 p_old1 e0 e1 u with
+                      | Some (a, s) => Ok (a, s, 1%nat)
+                      | None => Err ERaise
+                      end
+                  end
+             else Ok (accept, stat, 0%nat)) with
+      | Err e => OErr e
+      | Ok (acc, stat, nd) =>
+        let fix_st (s : status) := if negb acc && is_acc s then stat else s in
+        match final_weight path0 e0, final_weight path1 e1 with
+        | Some w0, Some w1 =>
+            Out acc (mkSP path0 (fix_st st0) w0) (mkSP path1 (fix_st st1) w1) stat calls nd
+        | _, _ => OErr ERaise
+        end
+      end
+    end
+    end
+  end.
+
+(* the variant that sizes the forward container of the new [0+] path with the [0-] limit
+   ("path_tmp = path0.empty_path(maxlen=maxlen0 - 1)"): refuted by
+   C11_forward_segment_minus_limit_refuted *)
+Definition retis_swap_zero_fwd_minus_limit : ens -> ens -> spath -> spath -> list (list frame) -> list Q -> outcome :=
+  retis_swap_zero_with (fun e0 e1 => retis_path1_seg (e_maxlen e0 - 1) e0 e1).
 
 (* ------------------------------------------------------------------ quantis_swap_zero *)
 Variable vpot_of : Z -> option Q.     (* frame tag -> stored potential energy *)
